@@ -80,7 +80,8 @@ Definition primop_entry_ok (e : string * (string * nat)) : bool :=
   && match assoc_string name op_spelling with None => true | Some _ => false end
   && negb (mem_string name infix_ops)
   && negb (String.eqb name "(&&)") && negb (String.eqb name "(||)")
-  && negb (String.eqb name "enum/embed") && negb (String.eqb name "record/access").
+  && negb (String.eqb name "enum/embed") && negb (String.eqb name "record/access")
+  && negb (String.eqb sp "%enum/embed%") && negb (mem_string name postfix_ops).
 
 Definition table_ok : bool :=
   nodup_strings (map fst binops) && nodup_strings (map fst prefixops)
